@@ -181,8 +181,8 @@ def make_tasks(ctx, C13, quick):
     for doc, r in [(d, det) for d in mdocs] + [(d, rng) for d in rdocs]:
         W, H = doc["size"]
         for k, (cls, V, ref) in enumerate(C13.viewports(r, W, H)):
-            if quick and k % 2:
-                continue
+            if (quick and k % 2) or fx.has_stroke_effect(doc):
+                continue            # stroke effects are drawn from the viewport-cropped shape: known finding, replayed by stroke_findings
             tasks.append({"doc_t": doc, "law": {"kind": "viewport", "class": cls, "V": list(V), "ref": list(ref), "fx": True}})
         segs = C13.wrap_segments(doc["recipe"])
         for path, i, j in (r.sample(segs, 3) if len(segs) > 3 else segs):
@@ -213,6 +213,20 @@ def make_tasks(ctx, C13, quick):
                 node = fx_noop_node(C13, r, rnp, kind, (W, H), ch, in_run)
                 if orphan_zone:
                     node["clip"] = True
+                tasks.append({"doc_t": dict(doc, recipe=C13.apply_insert(doc["recipe"], path, i, node)),
+                              "law": {"kind": "noop", "noop": kind, "path": list(path), "index": i, "fx": True}})
+
+    # a hidden / outside / zero-opacity layer WITH A STROKE EFFECT, at every position of a few documents (deterministic)
+    for doc in small[:6]:
+        W, H = doc["size"]
+        for path, i, in_run, orphan_zone in C13.insertion_points(doc["recipe"]):
+            for kind in ("zero-opacity", "hidden", "outside"):
+                node = C13.noop_node(det, detnp, kind, (W, H), 3, in_run)
+                if orphan_zone:
+                    node["clip"] = True
+                node["effects"] = {"master": True, "items": [{"kind": "stroke", "color": [0, 0, 0], "size": 2,
+                                                               "position": det.choice(["OutF", "InsF", "CtrF"]), "opacity": 100,
+                                                               "blend": "Nrml", "enabled": True}]}
                 tasks.append({"doc_t": dict(doc, recipe=C13.apply_insert(doc["recipe"], path, i, node)),
                               "law": {"kind": "noop", "noop": kind, "path": list(path), "index": i, "fx": True}})
 
